@@ -4,7 +4,9 @@ package c16
 import (
 	"encoding/json"
 	"fmt"
+	"regexp"
 	"sort"
+	"strconv"
 	"strings"
 
 	"golang.org/x/mod/modfile"
@@ -237,9 +239,31 @@ func lineLessRef(a, b []string) bool {
 
 func semverCmp(a, b string) int { return semverref.Compare(semverref.Parse(a), semverref.Parse(b)) }
 
+const knownExcludeClass = "class:exclude-order-go-prerelease-after-1.21|"
+
+var goVerRE = regexp.MustCompile(`^1\.([0-9]+)(\.[0-9]+)?((?:rc|beta|alpha)[0-9]+)?$`)
+
+// goFrom121 tells whether a go directive version is go 1.21 or later in Go's own version order
+// (1.21rc1 and 1.21beta1 precede 1.21; 1.22rc1 follows it), and whether it is a pre-release of a
+// version after 1.21.
+func goFrom121(v string) (from, prereleaseAfter bool) {
+	m := goVerRE.FindStringSubmatch(v)
+	if m == nil {
+		return false, false
+	}
+	minor, _ := strconv.Atoi(m[1])
+	switch {
+	case minor > 21:
+		return true, m[3] != ""
+	case minor == 21:
+		return m[3] == "", false
+	}
+	return false, false
+}
+
 // blocksOrdered checks the documented order of every block of the formatted file.
 func blocksOrdered(fs *modfile.FileSyntax, goVersion string) string {
-	semExclude := goVersion != "" && semverCmp("v"+goVersion, "v1.21") >= 0
+	semExclude, prereleaseAfter := goFrom121(goVersion)
 	for _, st := range fs.Stmt {
 		b, ok := st.(*modfile.LineBlock)
 		if !ok {
@@ -269,6 +293,10 @@ func blocksOrdered(fs *modfile.FileSyntax, goVersion string) string {
 				if lineLessRef(y, x) {
 					bad = true
 				}
+			}
+			if bad && b.Token[0] == "exclude" && prereleaseAfter && !lineLessRef(y, x) {
+				// a go line such as "go 1.22rc1" is later than go 1.21, yet the block is in lexical order
+				return knownExcludeClass + fmt.Sprintf("exclude block out of documented order for go %s (a release candidate later than go 1.21): %q before %q", goVersion, x, y)
 			}
 			if bad {
 				return fmt.Sprintf("%s block out of documented order: %q before %q", b.Token[0], x, y)
@@ -581,6 +609,8 @@ func Run(r *fw.Run) {
 		sds = seeds(2, []string{"1.21"}, false, true)
 		sds = append(sds, seeds(1, []string{"1.20"}, false, true)...)
 	}
+	// the go version boundary of the exclude order: single-line layouts under every kind of go line
+	sds = append(sds, seeds(1, []string{"1.3", "1.9", "1.20.14", "1.21rc1", "1.21beta1", "1.21.0", "1.22rc1", "1.22.3", "1.100"}, false, true)...)
 	reqs := requests()
 	r.Bounds["require_lines_max"] = kmax
 	r.Bounds["seeds"] = len(sds)
@@ -609,7 +639,10 @@ func Run(r *fw.Run) {
 				if out != c.Seed {
 					l.Nontrivial++
 				}
-				if msg != "" {
+				if strings.HasPrefix(msg, knownExcludeClass) {
+					l.Outcomes[setter+":exclude-order-go-prerelease"]++
+					r.Violation(strings.TrimSuffix(knownExcludeClass, "|"), strings.TrimPrefix(msg, knownExcludeClass), c)
+				} else if msg != "" {
 					l.Outcomes[setter+":VIOLATION"]++
 					r.Violation(c.key(), msg, c)
 				} else {
@@ -671,7 +704,9 @@ func Replay(r *fw.Run, raw json.RawMessage) {
 	r.Transitions.Add(1)
 	r.Execs.Add(1)
 	r.Sample(c)
-	if msg, _ := runCase(c); msg != "" {
+	if msg, _ := runCase(c); strings.HasPrefix(msg, knownExcludeClass) {
+		r.Violation(strings.TrimSuffix(knownExcludeClass, "|"), strings.TrimPrefix(msg, knownExcludeClass), c)
+	} else if msg != "" {
 		r.Violation(c.key(), msg, c)
 	}
 }
